@@ -89,7 +89,16 @@ def build_and_run(ctx, cases, cfgs, opts):
     batches = []
     for t, lst in by_t.items():
         lst.sort(key=lambda c: (len(c["N"]) + len(c["D"]), c["N"], c["D"]))
-        k = 1 if (opts.get("full32") and t in ("i32", "u32")) else 6      # a 2^32 sweep per instance: one instance per program, no stragglers
+        if opts.get("full32") and t in ("i32", "u32"):
+            # all 2^32 values: a stratified dozen of instances per rep, each alone in its program (minutes each under the sanitizer build);
+            # the other instances get the boundary / random treatment
+            stride = max(1, len(lst) // 12)
+            full = [c for j, c in enumerate(lst) if j % stride == 0][:12]
+            for c in full:
+                c["_full32"] = True
+                batches.append([c])
+            lst = [c for c in lst if not c.get("_full32")]
+        k = 6
         for i in range(0, len(lst), k):
             batches.append(lst[i:i + k])
     jobs = []
@@ -119,7 +128,7 @@ def build_and_run(ctx, cases, cfgs, opts):
 
     def run(x):
         exe, b, cfg = x
-        full32 = opts.get("full32") and all(c["T"] in ("i32", "u32") for c in b)
+        full32 = bool(opts.get("full32")) and all(c.get("_full32") for c in b) and cfg in cfgs[:2]
         args = ["--seed", str(ctx.seed), "--nrandom", str(opts["nrandom"]), "--nbhd", str(opts["nbhd"]),
                 "--sample-shift", str(opts["sample_shift"] + (14 if full32 else 0)), "--full32", "1" if full32 else "0"]
         recs = ctx.run_ndjson(exe, args, timeout=3000)
